@@ -134,7 +134,7 @@ func useDecls(t *rapid.T, local string, k int, u *int) []string {
 	for i := 0; i < n; i++ {
 		*u++
 		id := *u
-		kind := rapid.IntRange(0, 11).Draw(t, "use")
+		kind := rapid.IntRange(0, 13).Draw(t, "use")
 		if i == 0 && kind == 7 {
 			kind = 0 // the first use must really use the package (else: imported and not used)
 		}
@@ -166,6 +166,11 @@ func useDecls(t *rapid.T, local string, k int, u *int) []string {
 			out = append(out, fmt.Sprintf("func u%d(a %s, b ...%s) (r %s) {\n\tswitch a {\n\tcase %s, %s:\n\t\treturn %s\n\t}\n\treturn r\n}", id, q(local, fmt.Sprintf("E%d", k)), q(local, fmt.Sprintf("E%d", k)), q(local, fmt.Sprintf("E%d", k)), q(local, fmt.Sprintf("X%d", k)), q(local, fmt.Sprintf("Y%d", k)), q(local, fmt.Sprintf("Y%d", k))))
 		case 10:
 			out = append(out, fmt.Sprintf("func u%d() string {\nL:\n\tfor i := 0; i < %s; i++ {\n\t\tif i > 2 {\n\t\t\tbreak L\n\t\t}\n\t}\n\treturn %s(%s())\n}", id, q(local, fmt.Sprintf("C%d", k)), q(local, fmt.Sprintf("G%d", k)), q(local, fmt.Sprintf("F%d", k))))
+		case 11:
+			// the only reference sits in a type parameter list
+			out = append(out, fmt.Sprintf("type u%d[P %s, Q any] struct {\n\tp P\n\tq Q\n}", id, q(local, fmt.Sprintf("I%d", k))))
+		case 12:
+			out = append(out, fmt.Sprintf("func u%d[P %s](p P) int {\n\treturn p.M()\n}", id, q(local, fmt.Sprintf("I%d", k))))
 		default:
 			out = append(out, fmt.Sprintf("var u%d interface{} = (*%s)(nil)", id, q(local, fmt.Sprintf("T%d", k))))
 		}
